@@ -78,7 +78,7 @@ package cache
 //@   pure
 // (assumption: os.Stat fails only for files that do not exist)
 //@ extern os.Stat(name string) (info fs.FileInfo, err error)
-//@   ensures err == nil ==> info != nil && (name in disk) && info.Size() == len(disk[name])
+//@   ensures err == nil ==> info != nil && (name in disk) && info.Size() == len(disk[name]) && info.Size() >= 0
 //@   ensures err != nil ==> !(name in disk)
 //@ extern (honnef.co/go/tools/lintcmd/cache.Cache).Get(id ActionID) (e Entry, err error)
 //@ extern (honnef.co/go/tools/lintcmd/cache.Cache).OutputFile(out OutputID) string
